@@ -13,8 +13,10 @@
 (*      Impl "pinned"  : CSS, DATA, JS; json.dumps as is                   *)
 (* 2. Merchant ids.  Each merchant gets an id used as a dictionary key;    *)
 (*    two merchants with the same id overwrite each other.                 *)
-(*      Impl "intended": ids made unique;  "pinned": drop quotes, blanks   *)
-(*      become underscores (collides on names differing only in those)     *)
+(*      Impl "intended": ids made unique by probing base, base_2, ...      *)
+(*      "pinned": drop quotes, blanks become underscores (collides on      *)
+(*      names differing only in those); "counter": a running number per    *)
+(*      base (collides with a merchant NAMED like a numbered duplicate)    *)
 (***************************************************************************)
 EXTENDS Naturals, Sequences, FiniteSets, TLC
 
@@ -58,27 +60,45 @@ Decode(doc) ==
 RoundTrip(data) == Decode(Assemble(data)) = data
 
 \* ---- merchant ids -----------------------------------------------------------
-\* a name is a sequence of name atoms
-NameAtoms == {"w1", "w2", "space", "underscore", "squote", "dquote"}
+\* a name is a sequence of name atoms ("d2": the digit 2 - a name may itself look like a numbered duplicate)
+NameAtoms == {"w1", "w2", "space", "underscore", "squote", "dquote", "d2"}
 RECURSIVE PinnedId(_)
 PinnedId(n) == IF n = <<>> THEN <<>>
                ELSE (IF Head(n) \in {"squote", "dquote"} THEN <<>> ELSE IF Head(n) = "space" THEN <<"underscore">> ELSE <<Head(n)>>) \o PinnedId(Tail(n))
-\* intended: the k-th merchant whose base id is already taken gets a numeric suffix
+\* ids are TEXT: a numbered duplicate is the base followed by "_<k>", which another merchant's own name may spell
+Numbered(base, k) == IF k = 1 THEN base ELSE base \o <<"underscore", IF k = 2 THEN "d2" ELSE IF k = 3 THEN "d3" ELSE "d4">>
+\* intended (report.make_merchant_id): probe base, base_2, base_3 ... for the first id not handed out yet
+RECURSIVE Probe(_, _, _)
+Probe(names, i, ids) ==
+  IF i > Len(names) THEN ids
+  ELSE LET base == PinnedId(names[i])
+           used == {ids[j] : j \in 1..Len(ids)}
+           k == CHOOSE k \in 1..4 : Numbered(base, k) \notin used /\ \A m \in 1..(k - 1) : Numbered(base, m) \in used
+       IN Probe(names, i + 1, Append(ids, Numbered(base, k)))
+\* a plausible simplification: a running number per base (base, base_2, ...) without looking at the ids already handed out
+Counted(names) == [i \in 1..Len(names) |->
+                     Numbered(PinnedId(names[i]), 1 + Cardinality({j \in 1..(i - 1) : PinnedId(names[j]) = PinnedId(names[i])}))]
 IdsOf(names) ==      \* names: a sequence of distinct names -> sequence of ids
   IF Impl = "pinned" THEN [i \in 1..Len(names) |-> PinnedId(names[i])]
-  ELSE [i \in 1..Len(names) |-> <<PinnedId(names[i]), Cardinality({j \in 1..(i - 1) : PinnedId(names[j]) = PinnedId(names[i])})>>]
+  ELSE IF Impl = "counter" THEN Counted(names)
+  ELSE Probe(names, 1, <<>>)
 IdsInjective(names) == \A i, j \in 1..Len(names) : i # j => IdsOf(names)[i] # IdsOf(names)[j]
 \* every merchant appears exactly once in the id-keyed dictionary
 EachMerchantOnce(names) == Cardinality({IdsOf(names)[i] : i \in 1..Len(names)}) = Len(names)
 
 NameSet == {<<"w1">>, <<"w1", "space", "w2">>, <<"w1", "underscore", "w2">>, <<"w1", "squote", "w2">>, <<"w1", "w2">>,
-            <<"dquote", "w1", "dquote">>, <<"w1", "space", "squote", "w2">>, <<"w2">>}
+            <<"dquote", "w1", "dquote">>, <<"w1", "space", "squote", "w2">>, <<"w2">>,
+            <<"w1", "underscore", "w2", "underscore", "d2">>, <<"w1", "space", "w2", "space", "d2">>}
 
 VARIABLES data, names
 vars == <<data, names>>
-Init == /\ data \in UNION {[1..n -> Atoms] : n \in 0..3}
-        /\ names \in {<<a, b>> : a \in NameSet, b \in NameSet}
-        /\ names[1] # names[2]
+Distinct(ns) == \A i, j \in 1..Len(ns) : i # j => ns[i] # ns[j]
+Init == \/ /\ data \in UNION {[1..n -> Atoms] : n \in 0..3}
+           /\ names \in {<<a, b>> : a \in NameSet, b \in NameSet}
+           /\ Distinct(names)
+        \/ /\ data \in UNION {[1..n -> Atoms] : n \in 0..1}
+           /\ names \in {<<a, b, c>> : a \in NameSet, b \in NameSet, c \in NameSet}
+           /\ Distinct(names)
 Next == UNCHANGED vars
 Spec == Init /\ [][Next]_vars
 
